@@ -82,30 +82,34 @@ class DictArray(StorageBase):
                 for s, k in zip(self.full_shape, key)
             )
             data: np.ndarray = np.empty(shape, dtype=object)
+            mask: np.ndarray = np.zeros(shape, dtype=bool)
             for i, index in enumerate(
                 itertools.product(*self._slice_indices(key, self.full_shape)),
             ):
                 external_key = tuple(x for x, m in zip(index, self.shape_mask) if m)
+                present = external_key in self._dict
                 if self.internal_shape:
                     internal_key = tuple(x for x, m in zip(index, self.shape_mask) if not m)
-                    if external_key in self._dict:
+                    if present:
                         arr = np.asarray(self._dict[external_key])
                         value = arr[internal_key]
                     else:
                         value = self._internal_mask()[internal_key]
                 else:  # noqa: PLR5501
-                    if external_key in self._dict:
+                    if present:
                         value = self._dict[external_key]
                     else:
                         value = self._internal_mask()
                 j = np.unravel_index(i, shape)
                 data[j] = value
+                mask[j] = not present
             new_shape = tuple(
                 len(range(*k.indices(s)))
                 for s, k in zip(self.full_shape, key)
                 if isinstance(k, slice)
             )
-            return data.reshape(new_shape)
+            # Like `FileArray` (and like slicing a masked NumPy array): a masked array, absent elements masked.
+            return np.ma.MaskedArray(data, mask=mask, dtype=object).reshape(new_shape)
 
         external_key = tuple(x for x, m in zip(key, self.shape_mask) if m)  # type: ignore[misc]
         internal_key = tuple(x for x, m in zip(key, self.shape_mask) if not m)  # type: ignore[misc]
